@@ -264,7 +264,7 @@ def k3(shape):
 
 def k3_shapes(tier):
     out = []
-    S = 6 if tier == 'quick' else 11
+    S = 6 if tier == 'quick' else 9      # sized: S = 11 ran for more than 45 minutes on 7 cores once the TSC and in-flight queries were added
     for a in range(1, S + 1):
         for t in range(1, S + 1):
             for order in ('qtq', 'tqq'):
@@ -296,7 +296,7 @@ KERNELS = [
            desc='MerkleCache initialise / query / truncate / query sequences against from-scratch results',
            encodes=['electrumx/lib/merkle.py:MerkleCache.initialize', '_extend_to', '_level_for', 'truncate',
                     'branch_and_root', '_leaf_start', '_segment_length'],
-           bounds='source of S=6 (quick) / 11 (thorough) symbolic hashes; initial length a, truncation t in 1..S '
+           bounds='source of S=6 (quick) / 9 (thorough) symbolic hashes; initial length a, truncation t in 1..S '
                   '(shapes); two queries (length, index) over all values (solver-enumerated); orders '
                   'query-truncate-query, truncate-query-query and (query overtaken by the truncation at its k-th source read, k '
                   'solver-chosen)-query; plus spot shapes with S=21 in thorough',
